@@ -37,7 +37,7 @@ def rows():
 
 ROWS = rows()
 # rows whose template is not valid assembly on the pinned tree (GNU as: operand type mismatch): Lean proves them stuck
-ILLFORMED = ["i64_clz", "i64_ctz", "i64_popcnt"]
+ILLFORMED = []
 # rows whose full statement is false: proved in weakened form + negation by witness (replayed on the real ELF)
 PARTIAL = ["i32_rem_s", "i64_rem_s"]
 WITNESSES = [("i32.rem_s", (0x80000000, 0xffffffff), "minint-by-minus1"),
